@@ -108,7 +108,7 @@ def detect(ids):
         ids = sorted(os.listdir(os.path.join(VERIF, "seeded")))
     with ThreadPoolExecutor(max_workers=6) as ex:
         for mid, res in ex.map(detect_one, ids):
-            mp = os.path.join(VERIF, "seeded", mid, "meta.json")
+            mp = os.path.join(os.environ.get("MUT_META_DIR") or os.path.join(VERIF, "seeded"), mid, "meta.json")
             meta = json.load(open(mp))
             if os.environ.get("MUT_OWN"):
                 print("%-8s %s" % (mid, res if res else "MISSED"))
